@@ -159,6 +159,53 @@ func c07Pipeline(c *core.Ctx, r *core.Result) {
 			w.Close()
 		}
 	}
+	// family "snapshot": the same patterns placed across a staking-snapshot height (432) in the 2.x eras:
+	// submission block 431, then 432 (snapshot), 433, 434
+	for _, st := range []int{drive.StV20Dev, drive.StV202, drive.StPIP10} {
+		era := drive.EraStage(st)
+		era.Name += "-across-snapshot"
+		var w *World
+		for _, pair := range []c07Pair{{"pUSD", "pEUR"}, {"PEG", "pUSD"}} {
+			for h0 := 0; h0 < 2; h0++ {
+				for pat := 0; pat < 27; pat++ {
+					idx++
+					if !c.Mine(idx) && c.Only == "" {
+						continue
+					}
+					ps := ""
+					for i, x := 0, pat; i < 3; i, x = i+1, x/3 {
+						ps += string("12U"[x%3])
+					}
+					key := fmt.Sprintf("pipeline/%s/%s>%s/sub%s/%s", era.Name, pair.from, pair.to, map[int]string{0: "G", 1: "U"}[h0], ps)
+					if !c.Want(key) {
+						continue
+					}
+					if c.Expired() {
+						r.Capped("deadline before " + key)
+						if w != nil {
+							w.Close()
+						}
+						return
+					}
+					if w == nil {
+						w = MustWorld(era, func(b *drive.Builder) {
+							FundStd(b)
+							for b.Next() < 427 {
+								b.AddEmpty(1)
+							}
+							for b.Next() < 431 {
+								b.Add(drive.BlockSpec{Rates: R1(), OPRPayTo: kit.AddrStr(KM)})
+							}
+						})
+					}
+					c07One(c, r, w, era, pair, h0 == 0, ps, key)
+				}
+			}
+		}
+		if w != nil {
+			w.Close()
+		}
+	}
 }
 
 func c07One(c *core.Ctx, r *core.Result, w *World, era drive.Era, pair c07Pair, subGraded bool, pattern, key string) {
